@@ -6,12 +6,24 @@ NOTES = ('All checks explore the real implementation in /repo (working tree) exh
 ENGINES = [
     {'name': 'E-sched', 'path': 'vt/explore/sched.py', 'serves_properties': ['C20'],
      'kind_free_text': 'stateless schedule explorer: real threads under a baton scheduler, DFS over choice prefixes with a preemption bound, every execution run to completion, deadlock/horizon detection, double replay of failing schedules'},
-    {'name': 'E-enum', 'path': 'vt/astgen.py, vt/par.py, vt/ref/', 'serves_properties': ['C01', 'C02', 'C03', 'C04', 'C08', 'C09', 'C11', 'C12', 'C13', 'C14', 'C15', 'C16', 'C17', 'C18'],
+    {'name': 'E-enum', 'path': 'vt/astgen.py, vt/par.py, vt/ref/', 'serves_properties': ['C01', 'C02', 'C03', 'C04', 'C05', 'C08', 'C09', 'C11', 'C12', 'C13', 'C14', 'C15', 'C16', 'C17', 'C18'],
      'kind_free_text': 'bounded-exhaustive program x data enumerator: all well-typed statements of bounded shape over the live registries x all tables/ledgers of bounded size over a value alphabet, executed on the real implementation and compared with a reference interpreter'},
     {'name': 'E-bfs', 'path': 'vt/explore/bfs.py', 'serves_properties': ['C10', 'C19'],
      'kind_free_text': 'explicit-state breadth-first search over operation histories on the product (real object, reference model) with canonical-state deduplication and closure detection'},
 ]
 CHECKS = {
+    'C05': {
+        'engine': 'E-enum',
+        'technique': 'exhaustive enumeration of the operator/function x operand-type matrix, of the product of clause-rule dimensions and of short token sequences / single-token edits, against an independently written reference type checker and an exception-class invariant',
+        'design_ref': 'DESIGN.md section 4, C05',
+        'text': '(a) 56k compile-only cases: every operator node x every ordered operand-type tuple over 14 types (binary 14x14, BETWEEN 14^3), every function name in the live registry x every argument tuple of '
+                'length 0..2 (3 over 8 types), attributes and subscripts on every type: accept/reject must equal vt/ref/typing.py (overload resolution re-implemented from the declared signatures; a committed '
+                'snapshot of 237 signatures is the lower bound). (b) 508k statements: 21 target kinds x 5 WHERE x 16 GROUP BY x 4 HAVING x 12 ORDER BY core product, every other dimension (15 FROM forms incl. '
+                'OPEN/CLOSE orders, 9 PIVOT BY, COALESCE, IN arity, parameters, duplicate names, DISTINCT, LIMIT) crossed with a reduced core: accepted iff all rules of the property hold; accepted '
+                'statements are executed. (c) 15k texts: all token sequences of length <= 2 over 52 tokens, all single-token edits of a 42-statement corpus, literal edge cases. Every rejection must be '
+                'ParseError / CompilationError / ProgrammingError and every error location a valid span rendered by the shell (thorough: 8.2M cases).',
+        'note': 'Trusted: vt/ref/typing.py. Operand tuples where exact-type and MRO overload resolution differ (bool, amount-like, NULL literal) are checked for the exception class only. Parameter container kind and invalid regular expressions are outside.',
+    },
     'C14': {
         'engine': 'E-enum',
         'technique': 'bounded-exhaustive enumeration of ledgers x BALANCES/JOURNAL/PRINT statement forms against the SELECT expansions written from the property, direct beancount folds, and a print/reload round trip',
